@@ -22,8 +22,8 @@ def P(pid, rules, explanation, not_decided, assumptions=(), design="3"):
                           assumptions=list(assumptions), design=f"DESIGN.md section {design}")
 
 
-P("C01", ["IDX", "RETRY", "SIGN", "FREE", "CPFORM", "ARGNAME", "DIRECTION", "RATIOFORM", "PGFORM", "SUBFORM", "SHARED", "GETB", "SF4", "ESC", "BPWALK"],
-  "(BPWALK) the breakpoint walk skips variables already on a bound, stops as soon as the segment holds its minimiser and examines the breakpoints in sorted order; (SF4, ESC) the wrapper hands out a new array for every gradient, never its memo or the user's own buffer, so the stored gradients stay distinct objects (otherwise y = 0 and the solver stalls); (GETB) the box the solver works in is the caller's box (a side becomes infinite only when it is None); (SHARED, conservative) the kernels keep no module-level state between calls, so an iteration depends on this run only; Structural necessary conditions of C01, decided on every path of the source: (IDX) index-space typing of "
+P("C01", ["IDX", "RETRY", "SIGN", "FREE", "CPFORM", "ARGNAME", "DIRECTION", "RATIOFORM", "PGFORM", "SUBFORM", "SHARED", "GETB", "SF4", "ESC", "BPWALK", "EXIT"],
+  "(EXIT) a projected-gradient message is only reported when the projected gradient of the returned (x, jac) was just tested against gtol; (BPWALK) the breakpoint walk skips variables already on a bound, stops as soon as the segment holds its minimiser and examines the breakpoints in sorted order; (SF4, ESC) the wrapper hands out a new array for every gradient, never its memo or the user's own buffer, so the stored gradients stay distinct objects (otherwise y = 0 and the solver stalls); (GETB) the box the solver works in is the caller's box (a side becomes infinite only when it is None); (SHARED, conservative) the kernels keep no module-level state between calls, so an iteration depends on this run only; Structural necessary conditions of C01, decided on every path of the source: (IDX) index-space typing of "
   "get_cauchy_point shows the sorted breakpoint list is filtered and walked in its own rank space, so variables "
   "resting on a bound with the gradient pushing outward (t = 0) cannot scramble the breakpoint order -- the "
   "defect behind the stalls the property names; (RETRY) a failed line search aborts only after a retry from a "
@@ -42,16 +42,16 @@ P("C02", ["BOX", "SIGN", "FDB", "SF6", "GETB", "EVALPT"],
   "bounds pick the bound the direction points to; (FDB) the caller's box is the box handed to the differencer.",
   "nothing of the statement is left out, under the assumptions np.clip is exact and SciPy's approx_derivative "
   "keeps its stencil inside `bounds`", design="3/C02")
-P("C03", ["DOWNHILL", "ACCEPT", "KEEP", "LSCAP", "SCALEPOS", "UNITS", "SF1", "SF3"],
-  "(SF1, SF3) the value the line search compares is the wrapper's value at the trial point: the cache is keyed on the point and written by the evaluation at that point only; (UNITS) the reference value and slope handed to the line search are in the same unit as the wrapper's evaluations it is compared with; (SCALEPOS) the packaged gradient scaler yields a positive factor -- a negative one turns descent into ascent; The selection logic only compares objective values, so its correctness is a dataflow fact: (DOWNHILL) an "
+P("C03", ["DOWNHILL", "ACCEPT", "KEEP", "LSCAP", "SCALEPOS", "UNITS", "SF1", "SF3", "RESTARTX"],
+  "(RESTARTX) a restarted run compares its first trials with the value of the very point it starts from; (SF1, SF3) the value the line search compares is the wrapper's value at the trial point: the cache is keyed on the point and written by the evaluation at that point only; (UNITS) the reference value and slope handed to the line search are in the same unit as the wrapper's evaluations it is compared with; (SCALEPOS) the packaged gradient scaler yields a positive factor -- a negative one turns descent into ascent; The selection logic only compares objective values, so its correctness is a dataflow fact: (DOWNHILL) an "
   "order-fact analysis of line_search proves the returned step is None or a step whose evaluated value is "
   "strictly below the (never overwritten) start value, NaN trial values never qualify; (ACCEPT) inside the main loop "
   "the iterate is only ever redefined as the projection of x + s*d with s the step returned by this iteration's "
   "line search; (KEEP) the failed-search branch does not touch "
   "(x, fun, jac); (LSCAP) the per-iteration evaluation cap is min(.., maxfun - nfev).",
   "monotonicity under non-determinism or rounding of the user's objective itself", design="3/C03")
-P("C04", ["EXIT", "RET", "NITB", "LSCAP", "ONCE", "PGFORM", "LSBUD"],
-  "(LSBUD) the line search spends at most the budget it is given, so that nfev stays within maxfun plus one line search; C04 is a control-flow property and all its clauses are decided: (EXIT) path-sensitive exploration of "
+P("C04", ["EXIT", "RET", "NITB", "LSCAP", "ONCE", "PGFORM", "LSBUD", "GETB"],
+  "(GETB) the projected gradient the report speaks of is taken in the caller's box, which get_bounds hands on unchanged; (LSBUD) the line search spends at most the budget it is given, so that nfev stays within maxfun plus one line search; C04 is a control-flow property and all its clauses are decided: (EXIT) path-sensitive exploration of "
   "minimize_lbfgsb over (message, success flag, comparison knowledge, facts) shows every state reaching a return "
   "carries a documented terminal message that is true of the returned state and success is False exactly for the "
   "abnormal message; (RET) every return is a result built at the return from the internal state and the wrapper's "
@@ -76,8 +76,8 @@ P("C06", ["ORIENT", "FIELDS", "MEM", "OWN", "FDB", "BIND", "SFREAD", "UNITS", "M
   "variable it came from; (MEM) the refill is bounded by maxcor+1 points and drops from the left, so reducing "
   "maxcor keeps the most recent pairs.",
   "agreement 'up to rounding' of the continued iterates with the uninterrupted run (arithmetic)", design="3/C06")
-P("C07", ["ESC", "NITOFF", "SIB", "CBUSE", "CNT", "FIELDS", "ORIENT", "DOWNHILL", "BIND", "SFREAD", "LSCAP", "SHARED", "STEPINIT"],
-  "(STEPINIT) the first trial step never exceeds the largest feasible step, so that a last-bit difference in the direction of a restarted run cannot abort its first line search; (SHARED) no solver state lives outside what the callback state carries (no module-level state written by the package); (LSCAP) the line-search cap is computed from the counters at the time of use, so a restart sees the same cap as the uninterrupted run; (SFREAD, DOWNHILL, BIND) the line search depends only on quantities a checkpoint carries: start value, global iteration number, evaluators; (ESC) may-alias origins of everything handed to the callback are disjoint from the targets of every in-place "
+P("C07", ["ESC", "NITOFF", "SIB", "CBUSE", "CNT", "FIELDS", "ORIENT", "DOWNHILL", "BIND", "SFREAD", "LSCAP", "SHARED", "STEPINIT", "RETRY", "FDB"],
+  "(FDB) the finite-difference options are the caller's values, not quantities derived from the point at which the wrapper happens to be built (a restarted run builds it elsewhere); (RETRY) the decision to abort after a failed search depends only on the memory length, which the callback state carries; (STEPINIT) the first trial step never exceeds the largest feasible step, so that a last-bit difference in the direction of a restarted run cannot abort its first line search; (SHARED) no solver state lives outside what the callback state carries (no module-level state written by the package); (LSCAP) the line-search cap is computed from the counters at the time of use, so a restart sees the same cap as the uninterrupted run; (SFREAD, DOWNHILL, BIND) the line search depends only on quantities a checkpoint carries: start value, global iteration number, evaluators; (ESC) may-alias origins of everything handed to the callback are disjoint from the targets of every in-place "
   "write reachable afterwards; (NITOFF) counter-offset analysis: the state's nit equals the nit of a run stopped "
   "at that iteration; (SIB) the state and the final result bind the same keywords to the same expressions; "
   "(CBUSE) the callback's result only decides the user-callback stop and nothing else depends on the presence "
@@ -85,8 +85,8 @@ P("C07", ["ESC", "NITOFF", "SIB", "CBUSE", "CNT", "FIELDS", "ORIENT", "DOWNHILL"
   "restored into the wrapper from the right fields before any evaluation, (FIELDS) writer/reader field agreement, "
   "(ORIENT) the history decoder inverts the encoder.",
   "numerical equality of the continuation with the uninterrupted run", design="3/C07")
-P("C08", ["IDX", "SIGN", "PIN", "CPFORM", "RATIOFORM", "BFGSFORM", "OWN", "INVMFORM", "BPWALK", "INVMSYM"],
-  "(INVMSYM) the two triangular factors multiply to the inverse middle matrix of the stored pairs, and bmv applies them in the right order; (BPWALK) the breakpoint walk skips variables already on a bound, stops as soon as the segment holds its minimiser and examines the breakpoints in sorted order; (INVMFORM) the factors of the middle matrix are computed from D, L, S'S, theta by exact algebra (no floor or clamp); (BFGSFORM) the model handed to the kernel is the consistent compact form, (OWN) the kernel does not write the model it is given; (IDX) index-space typing of the breakpoint bookkeeping (the property's named defect); (SIGN) breakpoints "
+P("C08", ["IDX", "SIGN", "PIN", "CPFORM", "RATIOFORM", "BFGSFORM", "OWN", "INVMFORM", "BPWALK", "INVMSYM", "USEFACT"],
+  "(USEFACT) a non-empty memory is never mistaken for an empty one (exact test in use_factor); (INVMSYM) the two triangular factors multiply to the inverse middle matrix of the stored pairs, and bmv applies them in the right order; (BPWALK) the breakpoint walk skips variables already on a bound, stops as soon as the segment holds its minimiser and examines the breakpoints in sorted order; (INVMFORM) the factors of the middle matrix are computed from D, L, S'S, theta by exact algebra (no floor or clamp); (BFGSFORM) the model handed to the kernel is the consistent compact form, (OWN) the kernel does not write the model it is given; (IDX) index-space typing of the breakpoint bookkeeping (the property's named defect); (SIGN) breakpoints "
   "t >= 0 on both branches, pinned bound on the side of d, f' <= 0, f'' >= 0 at their definitions; (PIN) "
   "variables reaching a bound are pinned by copying the bound, not by arithmetic; (CPFORM) the initialisation, "
   "the per-breakpoint updates of c, f', f'', p, dt_min and the final segment are symbolically executed into a "
@@ -95,15 +95,15 @@ P("C08", ["IDX", "SIGN", "PIN", "CPFORM", "RATIOFORM", "BFGSFORM", "OWN", "INVMF
   "floating-point error of these formulas; that the loop visits breakpoints until the first local minimiser "
   "(control structure beyond IDX); model decrease as a numerical fact",
   design="3/C08")
-P("C09", ["SIGN", "ALPHA", "FREE", "RATIOFORM", "SUBFORM", "KFACT", "SHARED", "OWN", "KFORM", "KSOLVE", "BFGSFORM", "INVMFORM", "INVMSYM"],
-  "(INVMSYM) the two triangular factors multiply to the inverse middle matrix of the stored pairs, and bmv applies them in the right order; (INVMFORM) the factors of the middle matrix are computed from D, L, S'S, theta by exact algebra (no floor or clamp); (BFGSFORM) the matrices W, M, theta the subspace step uses are those of the stored pairs; (KSOLVE) the reduced system is solved as LK^-T E LK^-1 with E = diag(-I, I), with the factor of this call; (KFORM) the four blocks of K are -D - Y'ZZ'Y/theta, L_A - R_Z, its transpose and theta S'AA'S, decided in an algebra of triangular parts; (KFACT) the LEL^T factor of K has the reference block form on its only non-trivial path, (SHARED, OWN; conservative) the kernel keeps no state between calls and does not write its inputs; The three places where the subspace step touches the box: (SIGN) truncation ratios non-negative on both "
+P("C09", ["SIGN", "ALPHA", "FREE", "RATIOFORM", "SUBFORM", "KFACT", "SHARED", "OWN", "KFORM", "KSOLVE", "BFGSFORM", "INVMFORM", "INVMSYM", "SCALEPOS", "USEFACT"],
+  "(USEFACT) a non-empty memory is never mistaken for an empty one (exact test in use_factor); (SCALEPOS) the scaling factor is positive, so the direction is a descent direction of the user's objective too; (INVMSYM) the two triangular factors multiply to the inverse middle matrix of the stored pairs, and bmv applies them in the right order; (INVMFORM) the factors of the middle matrix are computed from D, L, S'S, theta by exact algebra (no floor or clamp); (BFGSFORM) the matrices W, M, theta the subspace step uses are those of the stored pairs; (KSOLVE) the reduced system is solved as LK^-T E LK^-1 with E = diag(-I, I), with the factor of this call; (KFORM) the four blocks of K are -D - Y'ZZ'Y/theta, L_A - R_Z, its transpose and theta S'AA'S, decided in an algebra of triangular parts; (KFACT) the LEL^T factor of K has the reference block form on its only non-trivial path, (SHARED, OWN; conservative) the kernel keeps no state between calls and does not write its inputs; The three places where the subspace step touches the box: (SIGN) truncation ratios non-negative on both "
   "branches; (ALPHA) the truncation factor is min(1, nonneg) and multiplies the whole step once; (FREE) free set = "
   "strictly interior variables of the Cauchy point, active set its complement, step enters only through Z; "
   "(RATIOFORM) ratios are (bound - x_c)/dHat; (SUBFORM) reduced gradient r = g + theta(x_c - x) - W M c and step "
   "dHat = -(1/theta)(rHat + (1/theta) Z^T W v) match the direct primal method up to algebraic equivalence.",
   "the solve of the reduced system itself (K, LEL^T, Sherman-Morrison-Woodbury), model decrease, descent direction", design="3/C09")
-P("C10", ["MEM", "BFGSFORM", "OFFER", "RETRY", "MATSOWN", "BIND", "MAXLEN", "INVMFORM", "REBUILD", "INVMSYM"],
-  "(INVMSYM) the two triangular factors multiply to the inverse middle matrix of the stored pairs, and bmv applies them in the right order; (REBUILD) a restart turns the restored history into matrices before its first iteration; (INVMFORM) the factors of the middle matrix are computed from D, L, S'S, theta by exact algebra (no floor or clamp); (MAXLEN) idem; (BIND) the memory update is given the curvature threshold eps_SY (not another epsilon), so every stored pair satisfies s.y > eps_SY y.y; (MATSOWN) the fields of the compact representation are assigned only inside bfgsmats.py, where BFGSFORM checks them; (RETRY) the retry branch cuts the stored points to one when it resets the matrices, so matrices and stored pairs agree; The four memory-discipline clauses of C10 are decided package-wide over every insertion / removal / rebinding "
+P("C10", ["MEM", "BFGSFORM", "OFFER", "RETRY", "MATSOWN", "BIND", "MAXLEN", "INVMFORM", "REBUILD", "INVMSYM", "SF4", "ESC", "OWN", "USEFACT"],
+  "(USEFACT) a non-empty memory is never mistaken for an empty one (exact test in use_factor); (SF4, ESC) the gradients stored in the history are private arrays, never the wrapper's memo or the user's buffer; (OWN) no function writes the matrices it is handed (a rejected pair leaves them untouched); (INVMSYM) the two triangular factors multiply to the inverse middle matrix of the stored pairs, and bmv applies them in the right order; (REBUILD) a restart turns the restored history into matrices before its first iteration; (INVMFORM) the factors of the middle matrix are computed from D, L, S'S, theta by exact algebra (no floor or clamp); (MAXLEN) idem; (BIND) the memory update is given the curvature threshold eps_SY (not another epsilon), so every stored pair satisfies s.y > eps_SY y.y; (MATSOWN) the fields of the compact representation are assigned only inside bfgsmats.py, where BFGSFORM checks them; (RETRY) the retry branch cuts the stored points to one when it resets the matrices, so matrices and stored pairs agree; The four memory-discipline clauses of C10 are decided package-wide over every insertion / removal / rebinding "
   "of the point and gradient histories (MEM): guarded by the strict curvature test on the inserted pair, "
   "reject-no-touch for history and matrices, bounded FIFO (<= maxcor pairs, oldest dropped), lock-step of X and G; "
   "(BFGSFORM) theta = y.y/s.y of the newest pair and S, Y, L, D, W, the middle-matrix factors assembled from the "
@@ -111,8 +111,8 @@ P("C10", ["MEM", "BFGSFORM", "OFFER", "RETRY", "MATSOWN", "BIND", "MAXLEN", "INV
   "offered to the memory.",
   "equality of the compact representation with dense BFGS, positive definiteness, secant equation (matrix "
   "identities in floating point)", design="3/C10")
-P("C11", ["BOX", "DOWNHILL", "LSBUD", "SIGN", "RATIOFORM", "FDB", "LSPROTO", "EVALPT"],
-  "(EVALPT) the package itself evaluates the objective at the cached (in-box) point only; every other evaluation goes through SciPy's approx_derivative, bounded by FDB; (LSPROTO) the trial evaluated is the step DCSRCH asked for (bounded by the maximum feasible step it was given); (FDB) the stencil of a finite-difference gradient evaluated at a trial point is bounded by the caller's box; (BOX) the three trial-point sites of line_search are projections onto [lb, ub]; (DOWNHILL) returned step is "
+P("C11", ["BOX", "DOWNHILL", "LSBUD", "SIGN", "RATIOFORM", "FDB", "LSPROTO", "EVALPT", "SF6", "FIELDS", "UNITS"],
+  "(SF6) the user's callables receive a copy of the point, so they cannot move the cached (in-box) point; (FIELDS, UNITS) a restarted search compares values in the units of the checkpoint it starts from; (EVALPT) the package itself evaluates the objective at the cached (in-box) point only; every other evaluation goes through SciPy's approx_derivative, bounded by FDB; (LSPROTO) the trial evaluated is the step DCSRCH asked for (bounded by the maximum feasible step it was given); (FDB) the stencil of a finite-difference gradient evaluated at a trial point is bounded by the caller's box; (BOX) the three trial-point sites of line_search are projections onto [lb, ub]; (DOWNHILL) returned step is "
   "None or strictly downhill w.r.t. the start value (a zero step can never be returned under it); (LSBUD) one "
   "evaluation per loop iteration, counter guard `< max_iter`, SciPy's DCSRCH._iterate calls no user function "
   "(checked on SciPy's source); (SIGN) the maximum step is non-negative.",
@@ -145,26 +145,26 @@ P("C14", ["OWN", "SHARED", "LOGNI", "NONDET"],
   "object is written, no global statement, no caching decorator; (LOGNI) taint from iprint/logger reaches only "
   "logging calls and tests of logging-only branches; (NONDET) no nondeterminism source.",
   "re-entrancy of numpy / scipy routines themselves", design="3/C14")
-P("C15", ["SF1", "SF2", "SF3", "SF4", "SF5", "SF6", "SF7"],
-  "The wrapper is a 3-flag typestate machine over one cached point; its transition invariants are decided from "
+P("C15", ["SF1", "SF2", "SF3", "SF4", "SF5", "SF6", "SF7", "SHARED", "SFREAD"],
+  "(SHARED) two wrappers share no state; (SFREAD) nobody but the wrapper writes its memo; The wrapper is a 3-flag typestate machine over one cached point; its transition invariants are decided from "
   "the 120 lines of ScalarFunction: exact-comparison guard dominating every accessor (SF1), fresh private key "
   "(SF2), flags set only after the matching evaluation and reset with the key (SF3), scaling applied at return "
   "(SF4), one increment per user call (SF5), who-may-call the raw user functions (SF6), the differencer gets the "
   "counting wrapper, x0=self.x, f0=self.f after _update_fun (SF7).", "nothing (clause-complete under 2.1)",
   design="3/C15")
-P("C16", ["FDB", "MODES", "BOX", "SF7", "CNT", "SF5", "EVALPT"],
-  "(EVALPT) the package itself evaluates the objective at the cached (in-box) point only; every other evaluation goes through SciPy's approx_derivative, bounded by FDB; (CNT, SF5) nfev counts every objective evaluation incl. stencil points, also across a restart; (BOX)+(FDB) the differencer raises iff its x0 is outside `bounds`: x0 is the wrapper's cached point, which is "
+P("C16", ["FDB", "MODES", "BOX", "SF7", "CNT", "SF5", "EVALPT", "SHARED", "BIND", "ARRLIKE"],
+  "(SHARED) the options of one differencer are not visible to another wrapper; (BIND) the finite-difference step reaches the differencer only; (ARRLIKE) the packaged objectives stay complex-analytic (no cast to a real dtype), which the complex-step mode relies on; (EVALPT) the package itself evaluates the objective at the cached (in-box) point only; every other evaluation goes through SciPy's approx_derivative, bounded by FDB; (CNT, SF5) nfev counts every objective evaluation incl. stencil points, also across a restart; (BOX)+(FDB) the differencer raises iff its x0 is outside `bounds`: x0 is the wrapper's cached point, which is "
   "a projection onto the caller's box, and `bounds` is that same box for every finite-difference mode; (MODES) "
   "each documented mode has a handler on both sides; (SF7) stencil evaluations go through the counting wrapper.",
   "agreement of the final objective value with the exact-gradient solution to the accuracy of the scheme",
   design="3/C16")
-P("C17", ["SCALER", "UNITS", "SF4", "SCALEPOS", "SCALEUSE", "OWN", "SFREAD"],
-  "(SFREAD) nobody outside the wrapper writes its raw memo, so the factor is applied exactly once, at the accessor boundary; (SCALEUSE) outside the wrapper the factor is read only to scale f0/grad once and to un-scale the target test, (OWN) the packaged scaler does not write the arrays it is handed; (SCALEPOS) the packaged scaler returns a positive factor; (SCALER) one call site outside loops, arguments = clipped start point, unscaled gradient, lb, ub, result is the "
+P("C17", ["SCALER", "UNITS", "SF4", "SCALEPOS", "SCALEUSE", "OWN", "SFREAD", "FIELDS", "SIB", "SF7"],
+  "(FIELDS, SIB) the callback state carries the factor like the result does, so that a restart from it keeps the units; (SF7) the differencer is based on the raw value; (SFREAD) nobody outside the wrapper writes its raw memo, so the factor is applied exactly once, at the accessor boundary; (SCALEUSE) outside the wrapper the factor is read only to scale f0/grad once and to un-scale the target test, (OWN) the packaged scaler does not write the arrays it is handed; (SCALEPOS) the packaged scaler returns a positive factor; (SCALER) one call site outside loops, arguments = clipped start point, unscaled gradient, lb, ub, result is the "
   "only write of the factor outside the class; (UNITS) raw/scaled unit typing: target tested on the unscaled "
   "value, ftol test compares like units, results and line search get scaled values; (SF4) scale applied inside "
   "the accessors.", "equality of two complete runs (relation between trajectories)", design="3/C17")
-P("C18", ["SIB", "ESC", "MEM", "DIAG", "RETRY", "UNITS", "RESTARTX"],
-  "(RESTARTX) after a restart the first new pair is a difference of gradients the user returned at the two retained iterates: the start point is exactly checkpoint.x; (UNITS) the gradients stored in the history are all scaled by the same factor, so their differences are differences of the user's gradients; (RETRY) after a failed search the retained point and gradient are the newest stored ones; (SIB) every LbfgsInvHessProduct is built from (diff(X), diff(G)) in that order (or the checkpoint's pairs with "
+P("C18", ["SIB", "ESC", "MEM", "DIAG", "RETRY", "UNITS", "RESTARTX", "SFREAD", "SF4"],
+  "(SFREAD) the gradient stored next to an iterate was evaluated there: nobody but the wrapper marks its memo as valid; (SF4) stored gradients are private arrays; (RESTARTX) after a restart the first new pair is a difference of gradients the user returned at the two retained iterates: the start point is exactly checkpoint.x; (UNITS) the gradients stored in the history are all scaled by the same factor, so their differences are differences of the user's gradients; (RETRY) after a failed search the retained point and gradient are the newest stored ones; (SIB) every LbfgsInvHessProduct is built from (diff(X), diff(G)) in that order (or the checkpoint's pairs with "
   "one slice); (ESC) stored points / gradients are private and never written afterwards, so pairs are bit-exact "
   "differences of visited points; (MEM) <= maxcor pairs each with s.y > eps*y.y >= 0; (DIAG) the diagonal utility "
   "probes e_i, reads and writes index i, over range(n), with a fresh probe per iteration.",
